@@ -299,7 +299,7 @@ def main(pid, tier, vseed):
             "assumptions": ASSUMPTIONS, "wall_s": round(time.time() - t0, 2), "violations": len(out),
         }
         os.makedirs(os.path.join(VERIF, "evidence"), exist_ok=True)
-        json.dump(evid, open(os.path.join(VERIF, "evidence", "C17.json"), "w"), indent=1)
+        json.dump(evid, open(os.environ.get("VERIF_EVIDENCE_OUT") or os.path.join(VERIF, "evidence", "C17.json"), "w"), indent=1)
         print("C17 %s: %d fuzz execs (%d campaigns, corpus %d, cov %d), %d sanitized cases, %d violations, %.1fs" % (
             tier, stats["execs"], stats["campaigns"], stats["corpus"], stats["cov"], sum(r["evaluations"] for r in san), len(out), evid["wall_s"]))
         return 1 if out else 0
